@@ -25,7 +25,7 @@ CONFIG = dict(
     driver_root="Cell2v.Driver.C11",
     audit="Audit/C11.lean",
     required_theorems=["start_order", "stop_reverse", "one_at_a_time", "first_failure_stops", "finish_at_most_once",
-                       "finish_exactly_once", "disciplined_log_canonical", "order_unconditional", "index_in_range",
+                       "finish_exactly_once", "disciplined_log_canonical", "growing_list_canonical", "late_modules_started", "stop_ignores_growth", "order_unconditional", "index_in_range",
                        "app_state_guard", "start_callback_sees_normal", "app_start_once", "app_stop_only_after_start_success", "app_start_phase_is_filter", "app_stop_phase_is_filter",
                        "shipped_modules_complete_once", "shipped_modules_found"],
     harness_pkg="./c11",
@@ -39,7 +39,7 @@ CONFIG = dict(
     trivial=r"^(ok|-|noop|over|bad-op)?$",
     rule="cases = `reset` + ops on one module list (plain ModList, baseapp.App, or node/app.App driven through StartNode/StopNode with a launch mode of the harness; node cases cycle through service lists none / all configured / one missing from the `services:` map first, middle, last / all missing, so that StartServices runs its skip path inside the completion closure): (a) every path of every translated shipped Start/Stop body replayed as a scripted module at "
          "each position of a 3-module list; (b) exhaustive: every list length 0..5 (thorough 0..7) x failure position or none x every "
-         "synchronous/delayed mask x phase, delayed modules completed through another goroutine / a timer / directly; (b2) re-entrant callbacks: the start-completion callback issues Stop directly or through a goroutine it waits for, the stop-completion callback issues Start/Stop (only patterns that do not run under ModList.Filter's non-reentrant lock: module 0 completes later), n 1..4 x object x callback x failure position x delays; (c) random cases from one PRNG "
+         "synchronous/delayed mask x phase, delayed modules completed through another goroutine / a timer / directly; (b2) re-entrant callbacks: the start-completion callback issues Stop directly or through a goroutine it waits for, the stop-completion callback issues Start/Stop (only patterns that do not run under ModList.Filter's non-reentrant lock: module 0 completes later), n 1..4 x object x callback x failure position x delays; (b3) a module itself issues Stop/Start from inside its Start/Stop (directly, or by handing a Stop to another goroutine) at every position, phase, sync/delayed chain, on App and node; (b4) growing lists: a module registers a further module (AddModule) right before completing — from its delayed completion or synchronously in a chain outside Filter — at every position, and during a stop phase; node cases also cycle the launch-mode name (registered / empty / unregistered with a default launch func); (c) random cases from one PRNG "
          "(VERIF_SEED): length 0..6, App or plain ModList, scripts T/F/delayed/panic-before/panic-after, premature or repeated Start/Stop, and in "
          "`neg` cases double/late/stale completions. An op is non-trivial when its observation contains at least one log token "
          "(not ok / - / noop / over); distinct = distinct (op, observation) pairs",
@@ -51,7 +51,7 @@ CONFIG = dict(
     ],
     assumptions=[
         "invocations of next are serialised (no two goroutines inside next at the same instant); under at-most-once completion only one module is outstanding, so this holds by the theorem itself",
-        "the module list is not changed (AddModule) while a phase is running; finish itself returns normally",
+        "AddModule during a phase is modelled between completion events only (it takes the same lock as Filter, so it cannot run inside Filter's synchronous chain); the App-level theorems are for a fixed list; finish itself returns normally",
         "shipped modules: branch conditions are independent and opaque; statements that do not mention the callback terminate and do not panic; a callback handed to other code (timer, helper function) is not interpreted and fails the obligation",
         "App.Prepare is called once per App (a second Prepare re-opens the Start guard by design)",
         "a completion callback that re-enters Start/Stop runs outside ModList.Filter (on the unchanged tree a Stop issued from the start callback of an all-synchronous module list deadlocks on Filter's non-reentrant lock; such cases are not generated)",
